@@ -28,6 +28,8 @@ func main() {
 			os.Exit(2)
 		}
 		dumpSSA(w, repoMod+"/"+os.Args[2], os.Args[3])
+	case "mutants":
+		os.Exit(cmdMutants(os.Args[2:]))
 	case "check":
 		os.Exit(cmdCheck(os.Args[2:]))
 	default:
